@@ -10,15 +10,15 @@ import json, os, subprocess, sys
 VERIF = os.path.dirname(os.path.dirname(os.path.abspath(__file__)))
 
 TECH = {
-    "C01": "SSA dominance/guard facts + backward value-flow slices (validate-before-pay, invoice binding, validator guards)",
+    "C01": "SSA dominance/guard facts + backward value-flow slices (validate-before-pay, invoice binding, validator guards) + the watchers' depth facts (shared with C20)",
     "C02": "SSA extraction of the ScriptBuilder call chain vs protocol template; constant evaluation",
     "C03": "value-flow slices over the nine spend builders; sibling agreement across back-ends",
     "C04": "constant evaluation of the timelock table + linear guard facts (width-aware) + CFG must-pass in the retry loop",
     "C05": "extraction of comparison constants from guard facts; constant inequality over the worst case",
     "C06": "FSM-table reachability over all events + effect summaries + guard dominance on the payment call",
-    "C07": "FSM-table reachability + post-success CFG reachability in actions and wallet adapters + value flow of the CSV watch arguments",
+    "C07": "FSM-table reachability + post-success CFG reachability in actions and wallet adapters + value flow of the CSV watch arguments + register-or-rollback typestate and stale-write-back (lost update) check in the watchers",
     "C08": "backward value-flow slices from the message fields and from each wallet adapter's results",
-    "C09": "switch-arm dominance in the message router + existence-oracle must-pass + guard order in SendEvent",
+    "C09": "switch-arm dominance in the message router + existence-oracle must-pass and adjacency + delivery must-pass-through + owner-only eviction from the active-swap map + guard order in SendEvent",
     "C10": "who-may-write on activeSwaps + value flow of the compared channel ids to normalisers",
     "C11": "guard-set dominance in the request wrapper and handlers + table placement",
     "C12": "guard facts (premium/fee bounds) + value flow of amounts",
@@ -27,19 +27,19 @@ TECH = {
     "C15": "effect-guard dominance + FSM-table flags + recovery binding extraction",
     "C16": "FSM-table graph analysis with effect-classified exits (silent-peer sink detection)",
     "C17": "FSM-table path analysis + constant folding of timeout durations + event-source typing",
-    "C18": "lock-order graph from flow-sensitive held-lock analysis + VTA call graph (cycle detection)",
-    "C19": "static lockset (guarded-by table) over SSA with held-lock summaries",
-    "C20": "guard facts dominating watcher callbacks + CFG at-most-once reachability",
-    "C21": "go/constant evaluation of the message-type table + writer/reader table agreement + guard dominance in the router",
+    "C18": "lock-order graph from flow-sensitive held-lock analysis + VTA call graph (cycle detection) + blocking channel operations under a lock against their counterparts",
+    "C19": "static lockset (guarded-by table) over SSA with held-lock summaries + reference-escape and stale-write-back checks + unguarded post-publication writes reachable from several goroutine roots",
+    "C20": "guard facts (exact operands, leaf-based) dominating watcher callbacks + serialisation of report sites (held locks) + monotone-tip store dominance",
+    "C21": "go/constant evaluation of the message-type table + partial evaluation of the pure type parser over sample numbers (SSA interpreter, no repository code is run) + narrowing-conversion taint + fallible-decode error discipline + guard dominance in the router",
     "C22": "FSM-table successor analysis + must-pass-through of RemoveSender + select-arm CFG check",
     "C23": "taint analysis (backward slices from every message field / payload sink)",
     "C24": "value-flow slices and guard facts in the CLN route / LND request builders",
     "C25": "who-writes on Policy fields + must-pass-through (file write then reload) + format-string agreement",
     "C26": "FSM-table effect placement + guard dominance at every admission / peer-sync site",
-    "C27": "resolver-chain CFG shape, SSA arithmetic shape of PPM.Compute, enum value flow end to end",
+    "C27": "resolver-chain CFG shape, symbolic integer expression of PPM.Compute (int64 and math/big vocabulary) compared on witnesses, enum value flow end to end",
     "C28": "comparison-direction facts, field-coverage of record converters, guard dominance of delete/send",
     "C29": "who-may-call SetVersion + guard dominance + start-up order in both mains",
-    "C30": "clamp must-pass in GetFee, constant evaluation of the floor table, two-sided comparison shape",
+    "C30": "clamp must-pass in GetFee (path walker), partial evaluation of the pure floor table and version comparison over a finite grid (SSA interpreter, no repository code is run), two-sided comparison shape",
 }
 
 NA = {}
